@@ -13,6 +13,7 @@ mod c18;
 mod c19;
 mod c15;
 mod lg;
+mod show;
 mod inputs;
 
 #[path = "/repo/harper-ls/src/git_commit_parser.rs"]
@@ -40,6 +41,7 @@ fn main() {
         "c05" => lg::c05(&a),
         "c11" => lg::c11(&a),
         "c12" => lg::c12(&a),
+        "show" => show::main(&a),
         other => {
             eprintln!("unknown subcommand {other}");
             std::process::exit(2);
